@@ -8,7 +8,8 @@ Local Open Scope N_scope.
 
 Section DeadBuiltins.
 Variable x : str.
-Variables e1 e2 : cexpr.
+Variables e1 e2 : list frame.
+Hypothesis Hd : dead_pair x e1 e2.
 Notation vr := (vrel x e1 e2).
 Notation tr := (trel x e1 e2).
 Notation er := (erel x e1 e2).
